@@ -52,7 +52,8 @@ Overlay(cells, m) == CellsOf(cells) @@ m
 
 InitCtx(ev) ==
   [r |-> RegsOf(ev.r), m |-> CellsOf(ev.cells),
-   dev |-> [mk |-> ev.dev[1], seed |-> ev.dev[2], val |-> ev.dev[3], len |-> ev.dev[4]],
+   dev |-> [mk |-> ev.dev[1], seed |-> ev.dev[2], val |-> ev.dev[3], len |-> ev.dev[4],
+            img |-> IF "img" \in DOMAIN ev THEN ev.img ELSE <<>>],
    io |-> [ik |-> ev.io[1], seed |-> ev.io[2], len |-> ev.io[3]], iom |-> CellsOf(ev.iocells), nin |-> 0,
    rd |-> <<>>, wr |-> <<>>, pio |-> <<>>, halt |-> ev.h = 1, hc |-> <<0, 0>>,
    ovl |-> NoOvl, v |-> 0, u |-> 0, ralt |-> FALSE, tag |-> "", pend |-> PendOf(ev.pend),
